@@ -101,7 +101,8 @@ def _force_world_close():
             pass
 
 
-_WORKER_PRIOR = []      # indices this worker process has executed so far
+_WORKER_PRIOR = []      # [first, last] index ranges this worker process has
+                        # executed so far (chunks are contiguous)
 
 
 def _worker_chunk(args):
@@ -139,10 +140,13 @@ def _worker_chunk(args):
             if len(agg['violations']) < 40:
                 agg['violations'].append(
                     {'index': i, 'seed': seed, 'violations': r['violations'],
-                     'prior': list(_WORKER_PRIOR)})
+                     'prior': [list(x) for x in _WORKER_PRIOR]})
             else:
                 agg['violations_more'] = agg.get('violations_more', 0) + 1
-        _WORKER_PRIOR.append(i)
+        if _WORKER_PRIOR and _WORKER_PRIOR[-1][1] == i - 1:
+            _WORKER_PRIOR[-1][1] = i
+        else:
+            _WORKER_PRIOR.append([i, i])
         if len(agg['samples']) < 2 and r.get('nontrivial'):
             agg['samples'].append({'index': i, 'seed': seed,
                                    'summary': r.get('summary')})
@@ -312,7 +316,8 @@ def _history_report(pid, mod, rec, sig, tier, base, path, occurrences):
     minimised by removing blocks of it while the violation persists; every
     trial is a fresh interpreter.  Returns the confirmed message or None."""
     scn = mod.generate(rec['seed'], tier)
-    hist = [seed_for(base, pid, i) for i in rec.get('prior') or ()]
+    hist = [seed_for(base, pid, i) for a, b in rec.get('prior') or ()
+            for i in range(a, b + 1)]
 
     def trial(h):
         with open(path, 'w') as f:
